@@ -758,3 +758,54 @@ pub fn main(env: &Env) -> i32 {
     );
     conclude("C12", "disk", seed, &vs)
 }
+
+// ---------------------------------------------------------------------------------------------
+// Miri sample: the same damaged images, interpreted. Any out-of-bounds, misaligned or
+// uninitialised read inside watto's unsafe casts or the string reader is a hard Miri error,
+// even when natively it would "just work".
+
+pub fn miri_main(args: &[String]) -> i32 {
+    let wseed: u64 = arg_value(args, "--wseed").and_then(|s| s.parse().ok()).unwrap_or(1);
+    let n_images: usize = arg_value(args, "--images").and_then(|s| s.parse().ok()).unwrap_or(12);
+    let mut rng = Rng::new(run_seed(wseed, "C12.miri", 0));
+    let mapping: Vec<u8> = if wseed % 3 == 0 {
+        b"com.example.F\xc3\xb6\xc3\xb6 -> a.a:\n# {\"id\":\"sourceFile\",\"fileName\":\"Foo.kt\"}\n    1:3:void run():10:12 -> a\n    4:4:void x.Y.inl():7:7 -> a\n    4:4:void go(int):20 -> a\ncom.example.Bar -> a.b:\n    void <init>() -> <init>\n".to_vec()
+    } else {
+        gen::gen_case(&mut rng, 3, 4).1
+    };
+    let file = cur::write_cache(&mapping);
+    let mut queries = universe(&mapping, &mut rng, &UniCfg { lines_full: false, cap: 8, compound: false });
+    queries.push(Query::TraceText("a.a: x\n    at a.a.a(SourceFile:2)\n".into()));
+    for c in crate::universe::scan(&mapping).iter().take(2) {
+        queries.push(Query::Class(c.obf.clone()));
+        for m in c.methods.keys().take(1) {
+            queries.push(Query::Method(c.obf.clone(), m.clone()));
+            queries.push(Query::FrameLine { class: c.obf.clone(), method: m.clone(), line: 2, file: None });
+            queries.push(Query::FrameLine { class: c.obf.clone(), method: m.clone(), line: usize::MAX, file: None });
+            queries.push(Query::FrameParams { class: c.obf.clone(), method: m.clone(), params: "".into() });
+        }
+    }
+    let all = enumerate_field_sets(&file);
+    let kinds: Vec<u8> = (0..9).collect();
+    let mut accepted = 0;
+    let mut d = Digest::default();
+    for k in 0..n_images {
+        let ops: Vec<Corrupt> = if k % 3 != 0 && !all.is_empty() {
+            all[rng.usize_below(all.len())].clone()
+        } else {
+            (0..rng.range(1, 3)).filter_map(|_| random_corruption(&mut rng, &file, &kinds)).collect()
+        };
+        let img = apply(&file, &ops);
+        let r = run_image(&img, &queries, true);
+        if r.accepted {
+            accepted += 1;
+        }
+        d.u64(r.log);
+        if let Some((class, msg, q)) = r.violation {
+            println!("MIRI-C12 VIOLATION class={} :: {} :: ops={:?} query={:?}", class, msg, ops, q.map(|q| q.describe()));
+            return 1;
+        }
+    }
+    println!("MIRI-C12 ok wseed={} images={} accepted={} queries_per_image={} log={:016x}", wseed, n_images, accepted, queries.len(), d.finish());
+    0
+}
